@@ -558,11 +558,13 @@ class Normaliser(object):
             root = s.value
         elif isinstance(s, ast.If):
             root = s.test
+        elif isinstance(s, ast.For):
+            root = s.iter
         else:
             return None
         if root is None:
             return None
-        cands = [n for n in ast.walk(root) if isinstance(n, ast.Call) and n is not root or (isinstance(s, ast.If) and n is root and isinstance(n, ast.Call))]
+        cands = [n for n in ast.walk(root) if isinstance(n, ast.Call) and (n is not root or isinstance(s, (ast.If, ast.For)))]
         for c in cands:
             m = self._match(c, mn, cls)
             if m is None:
@@ -584,6 +586,8 @@ class Normaliser(object):
             s2 = copy.copy(s)
             if isinstance(s, ast.If):
                 s2.test = R().visit(s.test)
+            elif isinstance(s, ast.For):
+                s2.iter = R().visit(s.iter)
             else:
                 s2.value = R().visit(s.value)
             ast.fix_missing_locations(assign)
@@ -616,7 +620,7 @@ class Normaliser(object):
             if rep is not None:
                 out.extend(rep)
                 continue
-            if caller_fn is not None and isinstance(s, (ast.Expr, ast.Return, ast.Assign, ast.If)):
+            if caller_fn is not None and isinstance(s, (ast.Expr, ast.Return, ast.Assign, ast.If, ast.For)):
                 hz = self._hoist(s, mn, cls)
                 if hz is not None:
                     queue[0:0] = [hz[0], hz[1]]
@@ -649,7 +653,43 @@ class Normaliser(object):
             out.append(s)
         return out
 
+    def _defs_to_lambdas(self):
+        """a new nested `def f(params): return e` whose name is read exactly once becomes `lambda params: e` at that use"""
+        for mn, t in self.trees.items():
+            for fn in [n for n in ast.walk(t) if isinstance(n, ast.FunctionDef)]:
+                for holder in ast.walk(fn):
+                    for fld in ('body', 'orelse', 'finalbody'):
+                        b = getattr(holder, fld, None)
+                        if not (isinstance(b, list) and b and isinstance(b[0], ast.stmt)):
+                            continue
+                        for d in list(b):
+                            if not (isinstance(d, ast.FunctionDef) and d is not fn and not d.decorator_list and d.name not in self.pinned):
+                                continue
+                            body = _docless(d.body)
+                            if not (len(body) == 1 and isinstance(body[0], ast.Return) and body[0].value is not None):
+                                continue
+                            if any(isinstance(n, (ast.Yield, ast.YieldFrom, ast.Await)) for n in ast.walk(d)):
+                                continue
+                            uses = [n for n in ast.walk(fn) if isinstance(n, ast.Name) and n.id == d.name]
+                            if len(uses) != 1 or not isinstance(uses[0].ctx, ast.Load) or any(x is uses[0] for x in ast.walk(d)):
+                                continue
+                            # the use must come after the definition in the same statement list or a later sibling block
+                            if getattr(uses[0], 'lineno', 0) < d.lineno:
+                                continue
+                            lam = ast.copy_location(ast.Lambda(args=d.args, body=body[0].value), d)
+                            use = uses[0]
+
+                            class R(ast.NodeTransformer):
+                                def visit_Name(self_, n):
+                                    return lam if n is use else n
+                            R().visit(fn)
+                            b.remove(d)
+                            if not b:
+                                b.append(ast.copy_location(ast.Pass(), d))
+                            self.inlined.append((d.name, fn.name, 'def-to-lambda'))
+
     def run(self):
+        self._defs_to_lambdas()
         if not self.helpers:
             return self
         for _ in range(8):
@@ -666,9 +706,47 @@ class Normaliser(object):
                 break
             self._collect_refresh()
         self._drop_unused()
+        self._propagate_temporaries()
         for t in self.trees.values():
             ast.fix_missing_locations(t)
         return self
+
+    def _propagate_temporaries(self):
+        """`tmp__iN = name` introduced by inlining, where `name` is bound once in the function: tmp is that name"""
+        import re
+        pat = re.compile(r'__i\d+$')
+        for t in self.trees.values():
+            for fn in [n for n in ast.walk(t) if isinstance(n, ast.FunctionDef)]:
+                stores = {}
+                for n in ast.walk(fn):
+                    if isinstance(n, ast.Name) and isinstance(n.ctx, (ast.Store, ast.Del)):
+                        stores[n.id] = stores.get(n.id, 0) + 1
+                    elif isinstance(n, ast.arg):
+                        stores[n.arg] = stores.get(n.arg, 0) + 1
+                    elif isinstance(n, ast.ExceptHandler) and n.name:
+                        stores[n.name] = stores.get(n.name, 0) + 2       # rebound and deleted
+                in_loop_stores = set()
+                for l in ast.walk(fn):
+                    if isinstance(l, (ast.For, ast.While)):
+                        for n in ast.walk(l):
+                            if isinstance(n, ast.Name) and isinstance(n.ctx, ast.Store):
+                                in_loop_stores.add(n.id)
+                for holder in ast.walk(fn):
+                    for fld in ('body', 'orelse', 'finalbody'):
+                        b = getattr(holder, fld, None)
+                        if not (isinstance(b, list) and b and isinstance(b[0], ast.stmt)):
+                            continue
+                        for s in list(b):
+                            if isinstance(s, ast.Assign) and len(s.targets) == 1 and isinstance(s.targets[0], ast.Name) and \
+                                    pat.search(s.targets[0].id) and isinstance(s.value, ast.Name) and stores.get(s.targets[0].id) == 1 and \
+                                    stores.get(s.value.id, 0) == 1 and s.value.id not in in_loop_stores:
+                                tmp, src = s.targets[0].id, s.value.id
+                                for n in ast.walk(fn):
+                                    if isinstance(n, ast.Name) and n.id == tmp and isinstance(n.ctx, ast.Load):
+                                        n.id = src
+                                b.remove(s)
+                                if not b:
+                                    b.append(ast.copy_location(ast.Pass(), s))
 
     def _collect_refresh(self):
         # helper bodies may themselves have changed (nested helpers inlined): recompute their summaries
